@@ -430,6 +430,19 @@ def split_case(res, rows, infmt, outfmt, corr=None, fits=True):
                 bad = [r for r in back if r["serial"] is None or r["resSeq"] is None or r["serial"] > 99999 or r["resSeq"] > 9999]
                 if bad:
                     res.fail("spec", "C09:splitter:%s-%s:limits" % (infmt, real_out), inp, "model %d: %r" % (m, g4.plain(bad[0])))
+                # ... and is a renaming: as many rows, chains and residues as the model has, grouped the same way
+                if len(back) != len(want):
+                    res.fail("spec", "C09:splitter:%s-%s:rows" % (infmt, real_out), inp, "model %d: %d rows written, %d in the model" % (m, len(back), len(want)))
+                else:
+                    fwd, bwd = {}, {}
+                    for a, b2 in zip(want, back):
+                        ka, kb = (a["chain"], a["resSeq"], a["iCode"]), (b2["chain"], b2["resSeq"], b2["iCode"])
+                        if fwd.setdefault(ka, kb) != kb or bwd.setdefault(kb, ka) != ka or \
+                                fwd.setdefault(("chain", a["chain"]), b2["chain"]) != b2["chain"] or \
+                                bwd.setdefault(("chain", b2["chain"]), a["chain"]) != a["chain"]:
+                            res.fail("spec", "C09:splitter:%s-%s:renaming-not-one-to-one" % (infmt, real_out), inp,
+                                     "model %d: %r -> %r clashes with an earlier row" % (m, ka, kb))
+                            break
             if real_out == "PDB":
                 lines = text.split("\n")
                 if lines and lines[-1] == "":
@@ -478,12 +491,13 @@ def judge_split(ctx, res, reqs):
             res.fail("spec", "C09:splitter:bracketing:%s" % r, inp, "file of model %d: %s" % (m, r))
 
 
-def run_splitter(ctx, res):
-    """splitter.main on multi-model samples, all format combinations"""
+def run_splitter(ctx, res, only_fit=False):
+    """splitter.main on multi-model samples, all format combinations (`only_fit`: only the families in which a model
+    needs fitting — what the C10 check adds at this observation point)"""
     rng = ctx.rng
     reqs = []
     corr = []
-    for k in range(ctx.pick(6, 40)):
+    for k in range(0 if only_fit else ctx.pick(6, 40)):
         rows = [r for r in g4.random_table(rng, nmodels=rng.randint(2, 4), nchains=rng.randint(1, 3)) if g4.within_limits(r)]
         for infmt in ("PDB", "mmCIF"):
             for outfmt in ("keep", "PDB", "mmCIF"):
@@ -497,6 +511,24 @@ def run_splitter(ctx, res):
         for outfmt in ("PDB", "mmCIF"):
             res.case(("splitter-fit", k, outfmt), nontrivial=True)
             reqs += split_case(res, rows, "mmCIF", outfmt, corr, fits=False)
+    # models whose chain sets differ (a later model drops one chain and brings a new one), every model needing a fit
+    for k in range(ctx.pick(4, 30)):
+        rows = g4.random_table(rng, nmodels=rng.randint(2, 3), nchains=rng.randint(2, 4), multichar_chains=True)
+        rows = [r for r in rows if g4.within_limits(dict(r, chain="A", resSeq=1, serial=1))]
+        models = sorted({r["model"] for r in rows})
+        chains = list(dict.fromkeys(r["chain"] for r in rows))
+        if len(models) < 2 or len(chains) < 2:
+            continue
+        varied = []
+        for r in rows:
+            if r["model"] != models[0]:
+                if r["chain"] == chains[0]:
+                    continue                                    # dropped in the later models
+                if r["chain"] == chains[-1]:
+                    r = dict(r, chain=chains[-1] + "n")         # a chain the first model does not have
+            varied.append(r)
+        res.case(("splitter-chain-sets-differ", k), nontrivial=True)
+        reqs += split_case(res, varied, "mmCIF", "PDB", corr, fits=False)
     # multi-model mmCIF files in which only SOME models need fitting (serials that keep counting past 99999 in a later
     # model, a two-character chain id that occurs in one model only): the models that fit are written unchanged
     for k in range(ctx.pick(4, 30)):
